@@ -14,14 +14,20 @@ DRIVER = cc.DRIVER
 COQ_FILES = ["FA/Proofs/CaptureProofs.v", "FA/Proofs/CaptureSem.v", "FA/Proofs/CaptureGen.v", "FA/Properties/C05.v"]
 
 LEVEL = ("Coq theorems over the executable model of _rewrite_captured_vars.visit_Name/visit_Call + _resolve_called_lambdas "
-         "(Model/Capture.v, mirroring the code incl. fixes F06, F07, FC2, FC4-FC6): inline_sem_partial - for EVERY expression "
+         "(Model/Capture.v, mirroring the code incl. fixes F06, F07, FC2, FC4-FC8, F30-F32; lambdas with default values and every "
+         "parameter kind, and starred arguments, are decoded from the generic node encoding): inline_sem_partial - for EVERY expression "
          "tree, backend and environment, resolving called lambdas preserves the value Python's call semantics gives, with no "
          "hygiene hypothesis (the proof uses the implementation's own bail-out test and the coincidence lemma EvalAgree.v); "
          "the one hypothesis, first_order, is the declared limit of the reference semantics (a lambda parameter is not itself "
-         "called); inline_sem_stack (the invariant for arbitrary argument-map stacks); inline_leaves_by_name; Examples for "
-         "parameter-only bodies, shadowing, bail-out, helpers of helpers.  Model tied to the code by exact comparison on "
-         "generated Python programs (incl. higher-order helpers); the oracle compares the recorded lambda's value with the "
-         "real Python callable's.")
+         "called); inline_sem_stack (the invariant for arbitrary argument-map stacks); inline_leaves_by_name; structural theorems for "
+         "what the reference semantics cannot express: inline_leaves_starred_call(_defaults) (F30: a call with a starred argument "
+         "stays a call), inline_defaults_in_enclosing_scope / inline_default_sees_argument (F31: default values of a lambda that "
+         "stays are resolved with the enclosing argument maps), inline_counts_every_binder / inline_stays_on_any_binder (F32), each "
+         "with a _pinned_refuted Example of the pre-fix behaviour; Examples for parameter-only bodies, shadowing, bail-out, helpers "
+         "of helpers.  Model tied to the code by exact comparison on generated Python programs (incl. higher-order helpers, starred "
+         "arguments, helpers returning lambdas with default values); the oracle compares the recorded lambda's value with the real "
+         "Python callable's (function-valued results are called on probe arguments) and checks that the recorded lambda compiles "
+         "and its text parses.")
 TRUSTED = c04_trusted = ["Coq 8.16.1 kernel (coqc); no axioms (Print Assumptions: closed under the global context)",
                          "extraction: ExtrOcamlBasic + ExtrOcamlNativeString; ocaml/driver_capture.ml + ocaml/sx.ml codecs",
                          "harness/bridge.py ast<->expr encoding; harness/props/capture_common.py program generator, snapshot construction, oracles",
@@ -29,11 +35,14 @@ TRUSTED = c04_trusted = ["Coq 8.16.1 kernel (coqc); no axioms (Print Assumptions
                          "whether the source of a captured callable is recovered as a Lambda (source recovery, C03)"]
 ASSUME = ["the helper's Lambda (rewrite_func_as_lambda of its source) is an input of the model, built by the generator from the helper's own text",
           "inline_sem: parameters that are themselves called (higher-order helpers) are outside the reference semantics: correspondence + oracle only",
-          "lambdas/helpers with non-positional parameter kinds are outside the model (oracle only)"]
+          "starred arguments and lambdas with default values / other parameter kinds have no value in the reference semantics: "
+          "inline_sem says nothing about them; structural theorems + correspondence + value and well-formedness oracles do"]
 RULE = ("generated Python programs: every single-return helper body of a typed grammar up to size 5 x parameter lists of length 1-3 "
         "(names overlapping the lambda's) x call shapes (positional, keyword, reordered, mixed) x arguments (incl. names bound inside "
         "the helper, nested helper calls to depth 3, calls inside nested lambdas) x helper kinds (def, def+docstring, defaults, "
-        "keyword-only, positional-only, *args, multi-statement, lambda-valued, local/global); non-trivial = python computed a value "
+        "keyword-only, positional-only, *args, multi-statement, lambda-valued, local/global); starred arguments (41 call shapes x "
+        "helper / directly called lambda, scope); helpers returning or keeping lambdas with default values x 5 parameter names x "
+        "call-site binders; staying lambdas binding the argument's name by any parameter kind; non-trivial = python computed a value "
         "that was compared with the recorded lambda's; distinct by program text")
 
 
@@ -148,8 +157,108 @@ def _keep(case):
     return case
 
 
-def corpus():
+# ---------------------------------------------------------------- F30: starred arguments; F31/F32: lambdas with default values
+# e.xs, e.rest have one element, e.two has two, j.sub three (capture_common.make_data)
+STAR_HELPERS = [("h", ["a"], "a + 1", "def"), ("h2", ["a", "b"], "a - b", "def"), ("h3", ["a", "b", "c"], "a + b - c", "def"),
+                ("hp", ["p"], "p", "def"), ("hs", ["a"], "sum([a + j for j in [1, 2]])", "def"),
+                ("hd", "a, b=3", "a - b", "def"), ("hv", "a, *r", "a - len(r)", "def")]
+STAR_LAMS = [
+    "lambda e: h(*e.xs)", "lambda e: hp(*e.xs)", "lambda e: hs(*e.xs)", "lambda e: h2(e.a, *e.rest)", "lambda e: h2(*e.xs, e.b)",
+    "lambda e: h2(*e.two)", "lambda e: h2(*e.xs, *e.rest)", "lambda e: h3(*e.two, e.a)", "lambda e: h3(e.a, *e.two)",
+    "lambda e: h2(*e.xs, b=e.b)", "lambda e: h(*[e.a])", "lambda e: h2(*[e.a, e.b])", "lambda e: h2(e.a, *[e.b])", "lambda e: h(*(e.a,))",
+    "lambda e: hd(*e.xs)", "lambda e: hd(*e.two)", "lambda e: hd(e.a, *e.rest)", "lambda e: hv(*e.two)", "lambda e: hv(e.a, *e.xs)",
+    "lambda e: h(h(*e.xs))", "lambda e: h2(h(*e.xs), *e.rest)", "lambda e: h(*[h(*e.xs)])",
+    "lambda e: (lambda a: a + 1)(*e.xs)", "lambda e: (lambda a, b: a - b)(e.a, *e.rest)", "lambda e: (lambda a, b: a - b)(*e.two)",
+    "lambda e: (lambda a: a)(*e.xs)", "lambda e: (lambda a, b=2: a - b)(e.a, *e.xs)", "lambda e: (lambda a, b=2: a - b)(*e.xs)",
+    "lambda e: (lambda a, *r: a + len(r))(*e.two)", "lambda e: (lambda a: (lambda b: a - b)(*e.rest))(*e.xs)",
+    "lambda e: (lambda a: (lambda b: a - b)(*e.rest))(e.a)", "lambda e: (lambda a: h(*[a]))(e.a)",
+    "lambda e: sum(e.jets.Select(lambda j: h3(*j.sub)))", "lambda e: sum(e.jets.Select(lambda j: h2(j.pt, *e.xs)))",
+    "lambda e: sum([h3(*j.sub) for j in e.jets])", "lambda a: h(*a.xs)", "lambda a: h2(a.a, *a.rest)", "lambda xs: h(*xs.xs)",
+    "lambda e: max(*e.two) + h(*e.xs)", "lambda e: [*e.two, h(*e.xs)]", "lambda e: (h(*e.xs), *e.two)",
+]
+
+# helpers that return a lambda, or keep one, whose default values mention the helper's parameters
+DEF_HELPERS = [
+    ("mk", ["k"], "lambda j, k=k: j + k", "def"),
+    ("mks", ["k"], "lambda j, *, s=k + 1: j * s", "def"),
+    ("mk2", ["k", "m"], "lambda j, k=k, m=k * m: j + k - m", "def"),
+    ("mkk", ["k"], "lambda k=k: k", "def"),
+    ("mkj", ["j"], "lambda j=j, *, k=j + 1: j * k", "def"),
+    ("mkn", ["k"], "lambda j, k=k: (lambda q, j=j + k: q - j)(1)", "def"),
+    ("mko", ["k"], "lambda j, /, k=k, *r, s=k - 1, **kw: j + k + s + len(r) + len(kw)", "def"),
+    ("hsel", ["s", "k"], "sum(s.Select(lambda j, k=k: j.pt + k))", "def"),
+    ("hsel2", ["s", "k"], "sum(s.Select(lambda j, *, w=k * 2: j.pt + w))", "def"),
+    ("hcall", ["k"], "(lambda q, r=k: q + r)(1)", "def"),
+    ("hcall2", ["k"], "(lambda q, r=k: q + r)(k, 2)", "def"),
+    ("hcall3", ["k"], "(lambda q, *, r=k: q + r)(1)", "def"),
+    ("apply_to", ["f", "v"], "f(v)", "def"),
+]
+DEF_NAMES = ["e", "k", "j", "s", "q"]
+DEF_TEMPLATES = [
+    "lambda {P}: mk({P}.off)", "lambda {P}: mk({P}.off)(1)", "lambda {P}: mk({P}.off)(1, 2)", "lambda {P}: mk({P}.off)(1, k={P}.a)",
+    "lambda {P}: mk({P}.a + {P}.off)", "lambda {P}: mks({P}.off)", "lambda {P}: mks({P}.off)(2)", "lambda {P}: mks({P}.off)(2, s={P}.a)",
+    "lambda {P}: mk2({P}.off, {P}.a)", "lambda {P}: mk2({P}.off, 2)(1)", "lambda {P}: mkk({P}.off)", "lambda {P}: mkk({P}.off)()",
+    "lambda {P}: mkj({P}.off)", "lambda {P}: mkj({P}.off)(2)", "lambda {P}: mkn({P}.off)", "lambda {P}: mkn({P}.off)(3)",
+    "lambda {P}: mko({P}.off)", "lambda {P}: mko({P}.off)(1, 2, 3, z=4)",
+    "lambda {P}: hsel({P}.jets, {P}.off)", "lambda {P}: hsel2({P}.jets, {P}.off)", "lambda {P}: hcall({P}.off)",
+    "lambda {P}: hcall2({P}.off)", "lambda {P}: hcall3({P}.off)", "lambda {P}: apply_to(mk({P}.off), 5)",
+    "lambda {P}: (mk({P}.off), mks({P}.a))", "lambda {P}: {P}.jets.Select(lambda {Q}: mk({Q}.pt))",
+    "lambda {P}: {P}.jets.Select(lambda {Q}: mk({Q}.pt)({P}.a))", "lambda {P}: sum({P}.jets.Select(lambda {Q}: mks({P}.off)({Q}.pt)))",
+    "lambda {P}: [mk({Q}.pt)(1) for {Q} in {P}.jets]", "lambda {P}: (lambda {Q}: mk({Q})(1))({P}.off)",
+    "lambda {P}: (lambda {Q}: lambda j, {Q}={Q}: j + {Q})({P}.off)", "lambda {P}: (lambda {Q}: lambda j, k={Q}: j + k)({P}.off)(1)",
+    "lambda {P}: (lambda {Q}, d={P}.a: {Q} + d)({P}.off)", "lambda {P}: (lambda {Q}, d={P}.a: {Q} + d)({P}.off, 1)",
+]
+# F32: a parameter of any kind of a lambda that stays in the body stops a substitution that mentions its name
+F32_WITNESSES = [
+    "lambda s: (lambda k: lambda j, *, s=2: k + s + j)(s.off)",
+    "lambda s: (lambda k: lambda *s: k + len(s))(s.off)",
+    "lambda s: (lambda k: lambda **s: k + len(s))(s.off)",
+    "lambda s: (lambda k: lambda s, /, j=1: k + s + j)(s.off)",
+]
+F32_TEMPLATES = [
+    "lambda {P}: (lambda k: lambda j, *, {Q}=2: k + {Q} + j)({P}.off)", "lambda {P}: (lambda k: lambda *{Q}: k + len({Q}))({P}.off)",
+    "lambda {P}: (lambda k: lambda j=1, **{Q}: k + len({Q}) + j)({P}.off)", "lambda {P}: (lambda k: lambda {Q}, /, j=1: k + {Q} + j)({P}.off)",
+    "lambda {P}: (lambda k: sum({P}.jets.Select(lambda j, *{Q}: k + j.pt + len({Q}))))({P}.off)",
+    "lambda {P}: (lambda k, m: lambda j, *, {Q}=m: k + {Q} + j)({P}.off, {P}.a)(1)",
+    "lambda {P}: (lambda k: (lambda j, *, {Q}=2: k + {Q} + j)(1))({P}.off)",
+]
+
+
+def f30_f31_witnesses():
+    return [mk("lambda e: h(*e.xs)", [("h", ["a"], "a + 1", "def")], tags={"F30", "starred"}, group="corpus"),
+            mk("lambda e: mk(e.off)", [("mk", ["k"], "lambda j, k=k: j + k", "def")], tags={"F31", "defaults-of-staying-lambda"}, group="corpus")] + \
+           [mk(w, [], tags={"F32", "binder-kinds"}, group="corpus") for w in F32_WITNESSES]
+
+
+def starred_and_defaults(ctx):
     out = []
+    for lam in STAR_LAMS:
+        used = names_of(lam)
+        hs = [h for h in STAR_HELPERS if h[0] in used]
+        for scope, depth in (("g", 1), ("l1", 2)):
+            out.append(mk(lam, hs, depth, {"starred"}, group="starred", scope=scope))
+    for t in DEF_TEMPLATES + F32_TEMPLATES:
+        two = "{Q}" in t
+        fam = "binder-kinds" if t in F32_TEMPLATES else "defaults-of-staying-lambda"
+        for p in DEF_NAMES:
+            for q in (DEF_NAMES if two else [""]):
+                if two and q == p and t not in F32_TEMPLATES:
+                    continue      # the inner binder would hide the passed lambda's parameter the template still uses
+                lam = t.format(P=p, Q=q)
+                try:
+                    compile(lam, "<template>", "eval")
+                except SyntaxError:
+                    continue      # (duplicate parameter names)
+                used = names_of(lam)
+                hs = [h for h in DEF_HELPERS if h[0] in used]
+                out.append(mk(lam, hs, 1, {fam}, group=fam))
+                if p in ("k", "j"):
+                    out.append(mk(lam, hs, 2, {fam}, group=fam, scope="l1"))
+    return out
+
+
+def corpus():
+    out = f30_f31_witnesses()
     out.append(mk("lambda e: h(e.x)", [("h", ["p"], "p", "def")], tags={"F06"}, group="corpus"))
     out.append(mk("lambda e: (lambda a, b: a + (lambda a: a)(b))(e.x, e.y)", [], tags={"F06"}, group="corpus"))
     out.append(mk("lambda e: h(e)", [("h", ["a"], "a.jets.Select(lambda a: a.pt)", "def")], tags={"F07"}, group="corpus"))
@@ -356,7 +465,7 @@ def inlinable_left_by_name(case: Case, tree) -> list:
 
 
 def run(ctx):
-    cs = corpus() + second_call_cases() + higher_order(ctx) + structured(ctx)
+    cs = corpus() + starred_and_defaults(ctx) + second_call_cases() + higher_order(ctx) + structured(ctx)
     en = enumerated(ctx)
     cap = ctx.budget(3000, 60000)
     if len(en) > cap:
